@@ -301,6 +301,7 @@ class Interp:
             v = env[n.id]
             if isinstance(v, Abs) and "unbound" in v.k:
                 self.E("maybe-unbound", n, n.id, guards=g)
+                return Abs(v.k - {"unbound"}, v.deps)
             return v
         mod = self.modstack[-1]
         if n.id in mod.assigns:
@@ -311,6 +312,8 @@ class Interp:
             except Exception:  # noqa: BLE001
                 self.E("global-nonliteral", n, n.id, guards=g)
                 return Abs({"obj"})
+        if n.id in mod.imports and mod.imports[n.id] == ("_gettsim.config", "numpy_or_jax"):
+            return Conc(numpy)
         if n.id in mod.imports and mod.imports[n.id][0] == "_gettsim.config":
             try:
                 return Conc(self.repo.cfg(mod.imports[n.id][1]))
@@ -387,7 +390,8 @@ class Interp:
             for b in balts:
                 if isinstance(b, dict):
                     keysets.append(sorted(map(repr, b.keys()))[:16])
-                    cands += [v for k, v in b.items() if kind_of(k) in kk or "obj" in kk or (kind_of(k) == "int" and "bool" in kk)]
+                    # numeric keys hash alike (d[2.0] is d[2], d[True] is d[1])
+                    cands += [v for k, v in b.items() if kind_of(k) in kk or "obj" in kk or (kind_of(k) in NUM and kk & NUM)]
                 elif isinstance(b, (list, tuple)):
                     cands += list(b)
                 elif isinstance(b, numpy.ndarray):
@@ -866,10 +870,16 @@ class Interp:
                     return Conc(pw_eval(float(xv), a["thresholds"].v, a["rates"].v, a["intercepts_at_lower_thresholds"].v, rm))
                 except Exception as e:  # noqa: BLE001
                     self.E("fold-exc", n, ast.unparse(n)[:80], type(e).__name__, guards=g)
-            for k in need[1:]:
-                if k in a and isinstance(a[k], Conc) and not isinstance(a[k].v, numpy.ndarray):
-                    self.E("pw-arg-not-array", n, k, guards=g)
-            return Abs({"float"}, deps)
+            ks = {"float"}
+            ic = a.get("intercepts_at_lower_thresholds")
+            if isinstance(ic, Conc) and not isinstance(ic.v, numpy.ndarray):
+                try:  # a plain list of intercepts: the lowest piece returns the element itself
+                    ks |= {kind_of(x) for x in ic.v}
+                except TypeError:
+                    pass
+            elif not isinstance(ic, Conc):
+                ks |= {"int"} if ic is not None and "int" in kinds(ic) else set()
+            return Abs(ks, deps)
         if fname in ("NotImplementedError", "ValueError", "KeyError", "TypeError"):
             return Abs({"exc"})
         vis = self.repo.helpers_visible_from(self.modstack[-1])
